@@ -389,6 +389,8 @@ where
 
         for (_, packet) in session.retrasmit_queue.iter() {
             tx.write(packet.as_ref()).await?;
+            // Every unfinished handshake still occupies one slot of the send quota.
+            connection.send_quota = connection.send_quota.saturating_sub(1);
         }
 
         Ok(())
